@@ -156,6 +156,33 @@ func restartFamily(c *Ctx, focus string) {
 		} else {
 			j := twin.Jobs[c.Plan.Draw(len(twin.Jobs))]
 			f := []string{"transient-error", "late-transient-error", "die-signal", "stage-error", "late-error"}[c.Plan.Draw(5)]
+			if focus == "C02" && retries > 0 && c.Plan.Draw(3) == 0 {
+				// an attempt goes silent, is given up after the heartbeat timeout and
+				// retried - and then finishes: its late completion notice is not the
+				// completion of the job
+				var mon []*JobRec
+				for _, s := range twin.Jobs {
+					if s.Monitor {
+						mon = append(mon, s)
+					}
+				}
+				var sj []*JobRec
+				for _, s := range mon {
+					if s.Phase != "main" {
+						sj = append(sj, s)
+					}
+				}
+				if len(sj) > 0 && c.Plan.Draw(3) > 0 {
+					mon = sj
+				}
+				if len(mon) > 0 {
+					j = mon[c.Plan.Draw(len(mon))]
+					f = []string{"stale-complete", "stale-complete", "stale-errors"}[c.Plan.Draw(3)]
+					// the replacement takes its time: the old attempt is back first
+					cfg.JobFaults[j.Key()+":"+j.Phase+"#2"] = "slow"
+					c.Res.Probes["restart-runs-with-stale-attempt"]++
+				}
+			}
 			if focus == "C01" && c.Plan.Draw(2) == 0 {
 				// a split that fails after it has written its chunk definitions: the
 				// repeated split's definitions are the ones the chunks must get
@@ -235,7 +262,7 @@ func checkOrderAcrossAttempts(r *Run, forks map[string]*forkDeps, desc string) [
 			final = "join"
 		}
 		for _, j := range byFork[node+"\x00"+fork] {
-			if j.Phase == final && j.Outcome == "complete" && j.EndSeq > 0 && j.EndSeq < seq {
+			if j.Phase == final && j.Outcome == "complete" && !j.Stale && j.EndSeq > 0 && j.EndSeq < seq {
 				return true
 			}
 		}
@@ -261,7 +288,7 @@ func checkOrderAcrossAttempts(r *Run, forks map[string]*forkDeps, desc string) [
 			// the last split completed before this job started
 			var sp *JobRec
 			for _, s := range js {
-				if s.Phase == "split" && s.Outcome == "complete" && s.EndSeq > 0 && s.EndSeq < j.StartSeq {
+				if s.Phase == "split" && s.Outcome == "complete" && !s.Stale && s.EndSeq > 0 && s.EndSeq < j.StartSeq {
 					if sp == nil || s.EndSeq > sp.EndSeq {
 						sp = s
 					}
@@ -282,7 +309,7 @@ func checkOrderAcrossAttempts(r *Run, forks map[string]*forkDeps, desc string) [
 				for ci := range defs {
 					ok := false
 					for _, m := range js {
-						if m.Phase == "main" && m.Chunk == ci && m.Outcome == "complete" && m.EndSeq > 0 && m.EndSeq < j.StartSeq {
+						if m.Phase == "main" && m.Chunk == ci && m.Outcome == "complete" && !m.Stale && m.EndSeq > 0 && m.EndSeq < j.StartSeq {
 							ok = true
 						}
 					}
